@@ -1,7 +1,7 @@
 (* C25 - String indexing and slicing translate to Python semantics on every dialect.
    Property theorems only: each is closed by `exact <lemma>`; Print Assumptions must report a closed term. *)
 Require Import PonyV.Base.PyBase PonyV.Base.Seg PonyV.Sql.SqlAst PonyV.Sql.Dialect PonyV.Gen.StringSlice
-               PonyV.Model.GetItem PonyV.Model.GetItemSem PonyV.Proofs.SliceProofs PonyV.Proofs.GetItemProofs.
+               PonyV.Model.GetItem PonyV.Model.GetItemSem PonyV.Proofs.SliceProofs PonyV.Proofs.SliceOracle PonyV.Proofs.GetItemProofs.
 
 (* The builder (translated from /repo's SQLBuilder.STRING_SLICE on every run), PostgreSQL branch: for every string,
    every shape of bound (omitted / constant / expression) and every integer value, the SQL computes s[a:b]. *)
@@ -20,6 +20,16 @@ Theorem C25_builder_mysql_except_known : forall env expr s start stop a b,
   eval MySQL env (string_slice false expr start stop) = VStr (py_slice s a b).
 Proof. exact slice_mysql. Qed.
 Print Assumptions C25_builder_mysql_except_known.
+
+(* generic branch under Oracle's SUBSTR ('' is NULL there: `ora r` is NULL for the empty result), same domain *)
+Theorem C25_builder_oracle_except_known : forall env expr s start stop a b,
+  s <> [] ->
+  eval Oracle env expr = VStr s ->
+  bound_ok Oracle env start a -> bound_ok Oracle env stop b ->
+  generic_ok (zlen s) a b ->
+  eval Oracle env (string_slice false expr start stop) = ora (py_slice s a b).
+Proof. exact slice_oracle. Qed.
+Print Assumptions C25_builder_oracle_except_known.
 
 (* SQLite code path (translated from SQLiteBuilder.STRING_SLICE): unconditional, NULL bounds count as omitted *)
 Theorem C25_builder_sqlite : forall env expr s start stop a b,
